@@ -81,3 +81,19 @@ M('C02', 'aggregate-unselected', STM + 'proof_system/concatenation/proof.rs',
             signatures: sig_reg_list,
             batch_proof,
         })""", ['from-selection'], 'proof built from unselected signatures')
+
+# ---------------------------------------------------------------- C04
+ENT = COMMON + 'entities/'
+M('C04', 'signed-message-unhashed', ENT + 'certificate.rs',
+  '        hasher.update(self.signed_message.as_bytes());\n', '', ['Certificate.signed_message'], 'field dropped from the hash')
+M('C04', 'sealed-at-unhashed', ENT + 'certificate_metadata.rs',
+  '        hasher.update(self.sealed_at.timestamp_nanos_opt().unwrap_or_default().to_be_bytes());\n', '', ['sealed_at'], 'metadata field dropped')
+M('C04', 'offset-unhashed', ENT + 'signed_entity_type.rs',
+  '                hasher.update(&block_number_offset.to_be_bytes());\n', '                let _ = block_number_offset;\n', ['CardanoBlocksTransactions.2'], 'variant payload field dropped')
+M('C04', 'conversion-drops-field', COMMON + 'messages/certificate.rs',
+  '            signed_message: certificate_message.signed_message,\n            aggregate_verification_key: certificate_message\n                .aggregate_verification_key\n                .try_into()',
+  '            signed_message: String::new(),\n            aggregate_verification_key: certificate_message\n                .aggregate_verification_key\n                .try_into()', ['CertificateMessage.signed_message'], 'conversion defaults a field')
+M('C04', 'value-not-in-digest', ENT + 'protocol_message.rs',
+  '            hasher.update(value.as_bytes());\n        }\n        hasher.finalize().into()', '            let _ = value;\n        }\n        hasher.finalize().into()', ['key and value'], 'part values not hashed')
+M('C04', 'signature-choice-flipped', COMMON + 'messages/certificate.rs',
+  'signature: if certificate_message.genesis_signature.is_empty() {', 'signature: if !certificate_message.genesis_signature.is_empty() {', ['signature-choice'], 'wrong signature rebuilt')
